@@ -29,7 +29,7 @@ def invalid_requests(lay):
     """requests that the reference rejects in at least the initial state"""
     out = []
     R = lambda **k: out.append(dict(kind='req', **k))   # noqa: E731
-    pa = sorted(b - lay.off for b in lay.block_addresses() if b - lay.off >= 0)
+    pa = sorted(set(b - lay.off for t in stores.TABLES for b in lay.block_addresses(t) if b - lay.off >= 0))
     lo, hi = pa[0], pa[-1]
     edge = sorted(set(a for a in (lo - 1, lo, hi - 1, hi, hi + 1, 65535) if 0 <= a <= 65535))
     holes = [a for a in range(lo, hi + 1) if a not in pa]
@@ -43,7 +43,8 @@ def invalid_requests(lay):
     for a in edge + holes:
         R(fc=5, address=a, value=0xFF00)
         R(fc=6, address=a, value=0x5A5A)
-        R(fc=22, address=a, and_mask=0x00F2, or_mask=0x0025)
+        for am, om in ((0x00F2, 0x0025), (0xFFFF, 0x0000), (0xFFFF, 0x0025), (0x0000, 0xFFFF)):
+            R(fc=22, address=a, and_mask=am, or_mask=om)
         for n in (1, 2, 3):
             R(fc=15, address=a, count=n, byte_count=1, bits=[True] * n)
             R(fc=16, address=a, count=n, byte_count=2 * n, registers=[0x7700 + i for i in range(n)])
